@@ -311,7 +311,7 @@ class Model:
                 self.attempt_only.append((o.ref_name, t['key'], tuple(sorted(o.names))))
                 return False
         runs.append((o.ref_name, t['key'], tuple(sorted(o.names))))
-        faulty = fault_task is not None and fault_task[0] in o.names
+        faulty = fault_task is not None and (fault_task[0] in o.names or (len(fault_task) > 2 and fault_task[2] is not None and fault_task[2] == o.oid))
         if faulty and fault_task[1] == 'raise_before':      # (`raise_after_log` / `abort_after_log`: the run has started when it fails)
             return False
         for target in t['read_targets']:
@@ -463,7 +463,8 @@ def evaluate_history(lab, spec, roots, refs, sessions, counters, want):
                     ch['objs'][n].in_memory = False
                 continue
             if op == 'arm_fault':
-                armed = (step['task'], step['kind'])
+                # (the fault is armed for the OBJECT the name denotes in this chain: a task shared between chains runs under the full name it was created with)
+                armed = (step['task'], step['kind'], ch['objs'][step['task']].oid if step['task'] in ch['objs'] else None)
                 continue
             if op == 'disarm':
                 armed = None
